@@ -1772,9 +1772,10 @@ end Lm1Q
 
 /-- **`quantis_swap_zero` has no λ₋₁ early reject.**  Same ensemble settings and the same [0-] path that ended on
     the left for which `retis_swap_zero` answers '0-L' without asking the engines anything
-    (`lambda_minus_one_left_rejected`): `quantis_swap_zero` propagates four times and ACCEPTS.  `check_config` is
-    meant to exclude the combination ("Cannot run quantis with lambda_minus_one!") but tests
-    `if quantis and lambda_minus_one:` — a λ₋₁ of 0.0 is falsy and passes (setup.py:236; reported, C18's function). -/
+    (`lambda_minus_one_left_rejected`): `quantis_swap_zero` propagates four times and ACCEPTS.  A statement about the
+    move function alone: `check_config` excludes the combination ("Cannot run quantis with lambda_minus_one!",
+    `quantis_runs_without_lm1`); until fix b3eda5b it tested `if quantis and lambda_minus_one:` and a λ₋₁ of 0.0,
+    being falsy, passed (known_findings: C11:quantis-lm1-left-not-rejected-early, fixed). -/
 theorem quantis_lm1_left_not_rejected_counterexample :
     (Lm1Q.e0.scL = true ∧ Lm1Q.e0.scR = true) ∧ Lm1Q.old0.getLast? = some (Lm1Q.fr (-4) 103) ∧
       (Lm1Q.fr (-4) 103).op ≤ Lm1Q.e0.i0 ∧
@@ -1782,5 +1783,32 @@ theorem quantis_lm1_left_not_rejected_counterexample :
     (∃ r, quantisSwapZero Lm1Q.e0 Lm1Q.e1 Lm1Q.old0 Lm1Q.old1 Lm1Q.scA Lm1Q.scB Lm1Q.scC Lm1Q.scD false 1 1 0 1 = .ok r ∧
       r.accept = true ∧ r.reqs.length = 4 ∧ ops r.path0 = [1, -2, -1, 1] ∧ ops r.path1 = [-2, 1, 2, 1, -1]) :=
   ⟨by decide, rfl, by decide, ⟨_, rfl, rfl, rfl⟩, ⟨_, rfl, rfl, rfl, rfl, rfl⟩⟩
+
+/-- **QuanTIS never runs with λ₋₁** (the precondition under which the QuanTIS theorems are the property's clauses; cf.
+    `quantis_lm1_left_not_rejected_counterexample` for the move function alone).  `check_config` rejects QuanTIS together
+    with ANY λ₋₁ value — 0 included (fix b3eda5b) —, so a configuration that passes with QuanTIS has no λ₋₁, its [0-]
+    ensemble gets `start_cond = "R"`, and the λ₋₁ condition ("`start_cond` = {L, R} and the path ended on the left")
+    is false for every [0-] path: the property's λ₋₁ clause has nothing to say about a QuanTIS run. -/
+theorem quantis_runs_without_lm1 :
+    (∀ v : Rat, configRejectsQuantisLm1 true (some v) = true) ∧
+    (∀ lm1, configRejectsQuantisLm1 true lm1 = false →
+      lm1 = none ∧ zeroMinusStartCond lm1 = (false, true) ∧
+      ∀ (e0 : Ens) (last0 : Frame), (e0.scL, e0.scR) = zeroMinusStartCond lm1 → earlyLeft e0 last0 = false) ∧
+    (∀ lm1, configRejectsQuantisLm1 false lm1 = false) := by
+  refine ⟨fun v => rfl, ?_, fun lm1 => rfl⟩
+  intro lm1 h
+  cases lm1 with
+  | some v => simp [configRejectsQuantisLm1] at h
+  | none =>
+    refine ⟨rfl, rfl, ?_⟩
+    intro e0 last0 hsc
+    simp only [zeroMinusStartCond, Option.isSome_none, Bool.false_eq_true, if_false, Prod.mk.injEq] at hsc
+    simp [earlyLeft, hsc.1]
+
+/-- the ensemble of `Lm1Q` (both start sides) is exactly what a QuanTIS configuration cannot produce; the λ₋₁ ensemble of
+    the retis examples comes from `zeroMinusStartCond (some _)` -/
+example : zeroMinusStartCond (some (-3)) = (Lm1Q.e0.scL, Lm1Q.e0.scR) ∧ configRejectsQuantisLm1 true (some 0) = true ∧
+    zeroMinusStartCond none = (Ex.e0.scL, Ex.e0.scR) ∧ configRejectsQuantisLm1 true none = false :=
+  ⟨rfl, rfl, rfl, rfl⟩
 
 end Infretis.C11
